@@ -86,3 +86,109 @@ def replay_get_parameters(w, obligation, expects):
 def replay_handle_function(w, obligation, expects):
     from replay.C01 import replay_visitor
     return replay_visitor(w, obligation, dict(expects or {}, clause="handle_function"))
+
+
+# ----------------------------------------------------------------------------- bounded native tier: the whole static pipeline against inspect.signature
+def signature_sources():
+    """Every parameter-list shape with 0-2 parameters per group, every legal default placement, with / without annotations; as a plain function, a method,
+    an async function and a lambda-valued default."""
+    import itertools
+    out = []
+    for npo, npk, var, nko, kw in itertools.product(range(3), range(3), (0, 1), range(3), (0, 1)):
+        pos = [f"p{i}" for i in range(npo)] + [f"q{i}" for i in range(npk)]
+        for nd in range(len(pos) + 1):                       # the last nd positional parameters have defaults
+            for kmask in range(1 << nko):                   # any subset of the keyword-only ones
+                for annotated in ((False, True) if (nd + kmask) % 2 == 0 else (False,)):
+                    parts = []
+                    for i, nm in enumerate(pos):
+                        s = nm + (": int" if annotated else "")
+                        if i >= len(pos) - nd:
+                            s += f" = {10 + i}"
+                        parts.append(s)
+                        if i == npo - 1:
+                            parts.append("/")
+                    if var:
+                        parts.append("*args" + (": str" if annotated else ""))
+                    elif nko:
+                        parts.append("*")
+                    for j in range(nko):
+                        parts.append(f"k{j}" + (": bytes" if annotated else "") + (f" = {20 + j}" if kmask >> j & 1 else ""))
+                    if kw:
+                        parts.append("**kw" + (": float" if annotated else ""))
+                    out.append(", ".join(parts) + ("|-> int" if annotated else "|"))
+    return out
+
+
+def pipeline_view(fn):
+    return ([(p.name.lstrip("*"), p.kind.value, None if p.default is None or p.kind.value.startswith("variadic") else str(p.default),
+              None if p.annotation is None else str(p.annotation)) for p in fn.parameters], None if fn.returns is None else str(fn.returns))
+
+
+def cpython_view(f):
+    kinds = {inspect.Parameter.POSITIONAL_ONLY: "positional-only", inspect.Parameter.POSITIONAL_OR_KEYWORD: "positional or keyword",
+             inspect.Parameter.VAR_POSITIONAL: "variadic positional", inspect.Parameter.KEYWORD_ONLY: "keyword-only", inspect.Parameter.VAR_KEYWORD: "variadic keyword"}
+    sig = inspect.signature(f)
+    ann = lambda a: None if a is inspect.Parameter.empty else getattr(a, "__name__", str(a))  # noqa: E731
+    return ([(p.name, kinds[p.kind], None if p.default is inspect.Parameter.empty else repr(p.default), ann(p.annotation)) for p in sig.parameters.values()],
+            None if sig.return_annotation is inspect.Signature.empty else getattr(sig.return_annotation, "__name__", str(sig.return_annotation)))
+
+
+def bounded(budget_s):
+    import logging
+    import time
+    import griffe
+    logging.disable(logging.CRITICAL)
+    t0 = time.time()
+    bad, cases, sigs = [], 0, set()
+    shapes = signature_sources()
+    for chunk_start in range(0, len(shapes), 150):
+        if time.time() - t0 > budget_s:
+            break
+        chunk = shapes[chunk_start:chunk_start + 150]
+        lines, names = ["import typing"], []
+        for i, sh in enumerate(chunk):
+            params, ret = sh.split("|")
+            lines.append(f"def f{i}({params}){ret}: pass")
+            lines.append(f"class C{i}:\n    def m(self{', ' + params if params else ''}){ret}: pass\n    async def am(self{', ' + params if params else ''}){ret}: pass")
+            names.append(i)
+        # overloads attach in order, property setter / deleter attach without replacing the property
+        lines.append("class Acc:\n    @property\n    def p(self) -> int: return 1\n    @p.setter\n    def p(self, value: int, /) -> None: pass\n    @p.deleter\n    def p(self): pass\n"
+                     "    @typing.overload\n    def o(self, a: int) -> int: ...\n    @typing.overload\n    def o(self, a: str, b: int = 0) -> str: ...\n    def o(self, a, b=0): return a")
+        src = "\n".join(lines) + "\n"
+        ns = {"__name__": "c2mod"}
+        exec(compile(src, "c2mod.py", "exec"), ns)  # noqa: S102
+        mod = griffe.visit("c2mod", filepath=None, code=src)
+        for i in names:
+            for label, g, c in ((f"f{i}", mod[f"f{i}"], ns[f"f{i}"]), (f"C{i}.m", mod[f"C{i}.m"], ns[f"C{i}"].m), (f"C{i}.am", mod[f"C{i}.am"], ns[f"C{i}"].am)):
+                cases += 1
+                gv, cv = pipeline_view(g), cpython_view(c)
+                if gv != cv:
+                    sig = "signature:" + str([x[:2] for x in cv[0]])[:80]
+                    if sig not in sigs:
+                        sigs.add(sig)
+                        bad.append({"source": chunk[i], "where": label, "failure": f"griffe {gv} != cpython {cv}", "signature": sig})
+        acc = mod["Acc"]
+        cases += 1
+        pr = []
+        p = acc["p"]
+        if not p.is_attribute or "property" not in p.labels or p.setter is None or p.deleter is None:
+            pr.append("setter / deleter not attached to the property (or the property was replaced)")
+        elif pipeline_view(p.setter) != cpython_view(ns["Acc"].p.fset):
+            pr.append(f"setter signature {pipeline_view(p.setter)} != {cpython_view(ns['Acc'].p.fset)}")
+        o = acc["o"]
+        if [pipeline_view(x)[0] for x in (o.overloads or [])] != [[("self", "positional or keyword", None, None), ("a", "positional or keyword", None, "int")],
+                                                                   [("self", "positional or keyword", None, None), ("a", "positional or keyword", None, "str"), ("b", "positional or keyword", "0", "int")]]:
+            pr.append(f"overloads not attached to the implementation in order: {[pipeline_view(x)[0] for x in (o.overloads or [])]}")
+        if pipeline_view(o) != cpython_view(ns["Acc"].o):
+            pr.append(f"implementation signature {pipeline_view(o)} != {cpython_view(ns['Acc'].o)}")
+        for x in pr:
+            if x[:40] not in sigs:
+                sigs.add(x[:40])
+                bad.append({"source": "class Acc", "where": "Acc", "failure": x, "signature": "accessors:" + x[:40]})
+    return {"cases": cases, "shapes": len(shapes), "bad": bad, "wall_s": round(time.time() - t0, 1)}
+
+
+if __name__ == "__main__":
+    import json
+    import sys
+    print(json.dumps(bounded(float(sys.argv[1]) if len(sys.argv) > 1 else 60)))
